@@ -214,12 +214,15 @@ structure Cfg where
 def clientLoop (d : Def) (now seed ts : Nat) : Store → Nat → List VP → Store × Nat × Res Unit
   | c, ctr, [] => (c, ctr, .ok ())
   | c, ctr, vp :: rest =>
-    match vp.signer with
-    | none => (c, ctr, .err "signer")
-    | some (subj, _) =>
-      match vp.id with
-      | none => (c, ctr, .panic "updateService:presentation.ID")
-      | some id =>
+    -- the sanity checks of a registration, applied to what the REMOTE server handed out (fix bb52a33 in /repo; before it
+    -- `presentation.ID.String()` / `storePresentation` dereferenced nil); order = regenerated `Facts.C16.updateLoopGuards`
+    if vp.jwt = false then (c, ctr, .err "format") else
+    match vp.id with
+    | none => (c, ctr, .err "no-id")
+    | some id =>
+      match vp.signer with
+      | none => (c, ctr, .err "signer")
+      | some (subj, _) =>
         if c.hasKey subj id then clientLoop d now seed ts c ctr rest else
         match c.add now vp seed ts (ctr + 1) with
         | (c', .ok row) =>
